@@ -10,14 +10,100 @@
 package main
 
 import (
+	"errors"
 	"fmt"
+	"io"
 	"os"
 	"sync"
+	"time"
 
 	"github.com/256dpi/gomqtt/packet"
 	"github.com/256dpi/gomqtt/session"
 	"github.com/256dpi/gomqtt/topic"
+	"github.com/256dpi/gomqtt/transport"
 )
+
+// memCarrier is a race-free in-memory transport.Carrier for the native pass.
+type memCarrier struct {
+	mu     sync.Mutex
+	cond   *sync.Cond
+	in     []byte
+	out    []byte
+	closed bool
+}
+
+func newMemCarrier() *memCarrier { c := &memCarrier{}; c.cond = sync.NewCond(&c.mu); return c }
+
+func (c *memCarrier) Read(p []byte) (int, error) {
+	c.mu.Lock()
+	defer c.mu.Unlock()
+	for len(c.in) == 0 && !c.closed {
+		c.cond.Wait()
+	}
+	if len(c.in) == 0 {
+		return 0, io.EOF
+	}
+	n := copy(p, c.in)
+	c.in = c.in[n:]
+	return n, nil
+}
+
+func (c *memCarrier) Write(p []byte) (int, error) {
+	c.mu.Lock()
+	defer c.mu.Unlock()
+	if c.closed {
+		return 0, errors.New("closed")
+	}
+	c.out = append(c.out, p...)
+	return len(p), nil
+}
+
+func (c *memCarrier) Close() error {
+	c.mu.Lock()
+	c.closed = true
+	c.mu.Unlock()
+	c.cond.Broadcast()
+	return nil
+}
+
+func (c *memCarrier) SetReadDeadline(time.Time) error { return nil }
+
+type connSys struct {
+	conn *transport.BaseConn
+	car  *memCarrier
+}
+
+func connSuite() suite {
+	k := func(s interface{}) *connSys { return s.(*connSys) }
+	pub := func(tag string) packet.Generic {
+		p := packet.NewPublish()
+		p.Message = packet.Message{Topic: "t", Payload: []byte(tag)}
+		return p
+	}
+	in := pub("incoming")
+	inb := make([]byte, in.Len())
+	in.Encode(inb)
+	return suite{
+		fresh: func() interface{} {
+			c := newMemCarrier()
+			c.in = append(append([]byte{}, inb...), inb...)
+			conn := transport.NewBaseConn(c)
+			conn.SetMaxWriteDelay(time.Millisecond)
+			return &connSys{conn, c}
+		},
+		ops: []op{
+			{"Send(sync)", func(s interface{}) { k(s).conn.Send(pub("a"), false) }},
+			{"Send(async)", func(s interface{}) { k(s).conn.Send(pub("b"), true) }},
+			{"Send(async)+wait", func(s interface{}) { k(s).conn.Send(pub("c"), true); time.Sleep(3 * time.Millisecond) }},
+			{"Receive", func(s interface{}) { k(s).conn.Receive() }},
+			{"Close", func(s interface{}) { k(s).conn.Close() }},
+			{"SetReadTimeout", func(s interface{}) { k(s).conn.SetReadTimeout(time.Second) }},
+			{"SetReadLimit", func(s interface{}) { k(s).conn.SetReadLimit(1000) }},
+			{"SetMaxWriteDelay", func(s interface{}) { k(s).conn.SetMaxWriteDelay(2 * time.Millisecond) }},
+			{"carrier.Close", func(s interface{}) { k(s).car.Close() }},
+		},
+	}
+}
 
 type op struct {
 	name string
@@ -148,6 +234,10 @@ func runAll(su suite) (programs, runs int) {
 			}(th)
 		}
 		close(start)
+		if cs, ok := sys.(*connSys); ok {
+			// a Receive with nothing left to read would wait forever: end the connection once the operations had their time
+			go func() { time.Sleep(5 * time.Millisecond); cs.car.Close() }()
+		}
 		wg.Wait()
 		runs++
 	}
@@ -178,6 +268,8 @@ func main() {
 		su = treeSuite()
 	case "C18":
 		su = sessionSuite()
+	case "C19":
+		su = connSuite()
 	default:
 		fmt.Println("RACEPASS programs=0 runs=0")
 		return
